@@ -28,6 +28,7 @@ func init() {
 			"R3 refusal: every function with constant accesses to a []byte parameter has a length guard covering its largest bound (unexported functions: every call site passes a constant-width slice of sufficient width); narrowing integer conversions in writers are preceded by a range check of the source that returns an error. " +
 			"R4 stream codecs: for every type with a Marshal/Unmarshal (or MarshalToBytes/UnmarshalFromBytes) pair the ordered field sequences agree; fixed-size HOB writers return the sum of the static sizes of what they write. " +
 			"R5 read counts: every io.Reader.Read call in eventlog and ovmf/abi has its count compared with the requested length (or is io.ReadFull). " +
+			"R11 a stream decoder accepts io.EOF as the end of input only when it comes from a primitive read made directly in that function (the first bytes of the next record), never from a multi-field decoder. " +
 			"R10 no decoder of the stream codec packages calls Reader.Read directly; fixed-size fields are read with io.ReadFull / binary.Read / io.ReadAll. " +
 			"R9 an encoder method (Marshal*, Put*, WriteTo, Bytes) of the codec packages never writes through its receiver. " +
 			"R8 a decoding helper that returns its result through a pointer-to-slice parameter assigns it before every successful return (no stale destination). " +
@@ -567,6 +568,94 @@ func runC18(c *Ctx) {
 			c.S.OK("R10", "stream decoders:no bare Read", "", fmt.Sprintf("no direct Reader.Read in the codec packages; %d io.ReadFull sites", nFull), true)
 		}
 		c.S.Floor("R10", "io.ReadFull sites in the stream codec packages", 3, nFull)
+	}
+
+	// ---------------- R11 a clean end of input is only accepted between records ----------------
+	// Where a decoder of the stream codec packages turns io.EOF into success (`if err == io.EOF { return nil }`,
+	// errors.Is), the error comes from a primitive read made directly in that function (io.ReadFull, binary.Read,
+	// Reader.Read) — the first bytes of the next record — never from a call into a multi-field decoder: binary.Read
+	// reports a bare io.EOF whenever the input ends exactly before one of the record's fields, so an EOF taken from a
+	// composite decoder accepts a log cut at a field boundary inside a record (finding F22).
+	{
+		nEOF := 0
+		isEOF := func(v ssa.Value) bool {
+			ld, ok := v.(*ssa.UnOp)
+			if !ok || ld.Op != token.MUL {
+				return false
+			}
+			g, ok := ld.X.(*ssa.Global)
+			return ok && g.Pkg != nil && g.Pkg.Pkg.Path() == "io" && g.Name() == "EOF"
+		}
+		for _, f := range c.P.RepoFunctions() {
+			switch load.RelPkg(f) {
+			case "eventlog", "extract/eventlog", "ovmf/abi":
+			default:
+				continue
+			}
+			if c.isTestFunc(f) {
+				continue
+			}
+			for _, b := range f.Blocks {
+				iff, ok := b.Instrs[len(b.Instrs)-1].(*ssa.If)
+				if !ok {
+					continue
+				}
+				var errv ssa.Value
+				switch x := iff.Cond.(type) {
+				case *ssa.BinOp:
+					if x.Op == token.EQL && isEOF(x.Y) {
+						errv = x.X
+					} else if x.Op == token.EQL && isEOF(x.X) {
+						errv = x.Y
+					}
+				case *ssa.Call:
+					if cal := x.Call.StaticCallee(); cal != nil && cal.String() == "errors.Is" && len(x.Call.Args) == 2 && isEOF(x.Call.Args[1]) {
+						errv = x.Call.Args[0]
+					}
+				}
+				if errv == nil {
+					continue
+				}
+				// does the EOF branch return success?
+				tb := b.Succs[0]
+				for len(tb.Instrs) == 1 && len(tb.Succs) == 1 {
+					tb = tb.Succs[0]
+				}
+				ret, ok := tb.Instrs[len(tb.Instrs)-1].(*ssa.Return)
+				ei := errIndex(f.Signature)
+				if !ok || ei < 0 || ei >= len(ret.Results) {
+					continue
+				}
+				if k, isK := ret.Results[ei].(*ssa.Const); !isK || !k.IsNil() {
+					continue
+				}
+				nEOF++
+				// where the error comes from
+				src := errv
+				if ex, ok := src.(*ssa.Extract); ok {
+					src = ex.Tuple
+				}
+				prim := false
+				what := flow.Describe(errv)
+				if call, ok := src.(*ssa.Call); ok {
+					what = callName(call)
+					if call.Call.IsInvoke() && call.Call.Method.Name() == "Read" {
+						prim = true
+					} else if cal := call.Call.StaticCallee(); cal != nil {
+						// the standard library's own readers are primitive reads (io.ReadFull, binary.Read, ReadRune, ReadByte …);
+						// a function of this repository is a decoder of something larger
+						if cal.Pkg != nil && !load.FuncInRepo(cal) {
+							switch cal.Pkg.Pkg.Path() {
+							case "io", "bytes", "bufio", "strings", "encoding/binary":
+								prim = true
+							}
+						}
+					}
+				}
+				c.S.Check(prim, "R11", load.FuncName(f)+":EOF accepted", c.pos(iff.Cond.Pos()), "the EOF that ends the input comes from a primitive read of the next record's first bytes ("+what+")", "io.EOF from "+what+" is taken as a clean end of input: a decoder of several fields reports a bare io.EOF whenever the input ends exactly before one of them, so an input cut inside a record is accepted and the partial record dropped")
+			}
+		}
+		c.S.Floor("R11", "places where a stream decoder accepts io.EOF as the end of input", 1, nEOF)
 	}
 
 	// ---------------- R9 encoders do not write the value they encode ----------------
